@@ -51,6 +51,10 @@ class Spec(object):
         self.aperture_dependent = (apertures is not None) if aperture_dependent is None else aperture_dependent
         self.logd_step = logd_step
         self.distance = distance
+        self.wavs = None        # optional per-model wavelength grids (per-file format only)
+
+    def wav_of(self, i):
+        return self.wav if self.wavs is None else np.asarray(self.wavs[i], dtype=float)
 
     @property
     def n_ap(self):
@@ -108,7 +112,7 @@ def write_v1(model_dir, spec, unit=u.mJy):
         sed = SED()
         sed.name = name
         sed.distance = spec.distance
-        sed.wav = spec.wav * u.micron
+        sed.wav = spec.wav_of(i) * u.micron
         sed.nu = sed.wav.to(u.Hz, equivalencies=u.spectral())
         sed.apertures = None if spec.apertures is None else spec.apertures * u.au
         sed.flux = spec.flux[i] * unit
